@@ -47,6 +47,7 @@ structure St where
   mems : List (String × List String) := []
   insts : List (String × Inst) := []
   prot : MemoryProtection := MemoryProtection.new 0
+  profile : Profile := .dev
 
 def errName : MemErr → String
   | .addressNotReadable => "AddressNotReadable"
@@ -166,6 +167,15 @@ def RegInfo.parseVal (r : RegInfo) (d : Bytes) : R Val :=
     match bfParse r.endian sg w r.lsb r.msb d with
     | .ok v => .ok (.word v.toNat) | .err e => .err e | .panic => .panic
 
+/-- `none` = ill-typed request -/
+def RegInfo.serializeVal (r : RegInfo) (v : Val) : Option (R Bytes) :=
+  match r.kind, v with
+  | .scalar size, .word n => some (scalarSerialize r.endian size (BitVec.ofNat _ n))
+  | .str, .str s => some (strSerialize r.len s)
+  | .bytes, .bytes b => some (bytesSerialize r.len b)
+  | .bf sg w _ _, .word n => some ((r.bfR sg w).serialize (BitVec.ofNat w n))
+  | _, _ => none
+
 /-- the register as far as ranges / rights are concerned -/
 def RegInfo.unitReg (r : RegInfo) : Register Unit :=
   { address := r.address, length := r.len, accessRight := r.access
@@ -178,13 +188,16 @@ def findMap (st : St) (n : String) : Option MapInfo := st.maps.find? (·.name ==
 def updMap (st : St) (m : MapInfo) : St :=
   { st with maps := (st.maps.filter (·.name != m.name)) ++ [m] }
 
-/-- does `BitField<ty, lsb, msb>` (normalised positions) get through the macro? -/
+/-- does `BitField<ty, lsb, msb>` (normalised positions) get through `BitField::verify`? -/
 def bfCompiles (sg : Bool) (w lsb msb : Nat) : Option (Int × Int) :=
-  if bfVerify w lsb msb then
-    match bfMinI64 sg lsb msb, bfMaxI64 sg lsb msb with
-    | some mn, some mx => some (mn, mx)
-    | _, _ => none
-  else none
+  if bfVerify w lsb msb then some (bfMin sg lsb msb, bfMax sg lsb msb) else none
+
+/-- a declaration with literal positions: accepted iff the normalisation does not underflow
+and `verify` passes -/
+def bfAccepts (e : Endian) (w lsbLit msbLit : Nat) : Bool :=
+  match bfNormalise e w lsbLit, bfNormalise e w msbLit with
+  | some lsb, some msb => bfVerify w lsb msb
+  | _, _ => false
 
 def declReg (st : St) (mapN regN kindS lenS offS accS initS : String) : St × String :=
   match findMap st mapN, kindOf kindS, lenS.toNat?, rightOf accS with
@@ -305,23 +318,33 @@ def handle (st : St) : List String → St × String
       | none => "nocompile")
     | none => (st, "bad-op")
   | "mem" :: n :: maps => ({ st with mems := (n, maps) :: st.mems.filter (·.1 != n) }, "ok")
-  | ["compiles", ty, l, m] =>
-    match intTy ty, l.toNat?, m.toNat? with
-    | some (sg, w), some l, some m => (st, if (bfCompiles sg w l m).isSome then "compiles" else "nocompile")
-    | _, _, _ => (st, "bad-op")
+  | ["profile", p] =>
+    match profileOf p with
+    | some p => ({ st with profile := p }, "ok")
+    | none => (st, "bad-op")
+  | ["accepts", e, ty, l, m] =>
+    match endianOf e, intTy ty, l.toNat?, m.toNat? with
+    | some e, some (_, w), some l, some m => (st, if bfAccepts e w l m then "accept" else "reject")
+    | _, _, _, _ => (st, "bad-op")
+  | ["ser", m, r, v] =>
+    match findRegSt st m r, valOf v with
+    | some r, some v => (st, match r.serializeVal v with
+      | some res => showR bytesToHex res
+      | none => "bad-op")
+    | _, _ => (st, "bad-op")
   | ["new", n] =>
     match newInst st n with
     | some (.ok i) =>
-      (setInst st n i, s!"ok size={i.mem.raw.length} raw={rawDigest i.mem} prot={protDigest .dev i.mem}")
+      (setInst st n i, s!"ok size={i.mem.raw.length} raw={rawDigest i.mem} prot={protDigest st.profile i.mem}")
     | some _ => (st, "panic")
     | none => (st, "bad-op")
   | ["rr", n, s, e] =>
     match findInst st n, s.toNat?, e.toNat? with
-    | some i, some s, some e => (st, showR bytesToHex (i.mem.readRaw .dev s e))
+    | some i, some s, some e => (st, showR bytesToHex (i.mem.readRaw st.profile s e))
     | _, _, _ => (st, "bad-op")
   | ["wr", n, a, d] =>
     match findInst st n, a.toNat?, hexToBytes d with
-    | some i, some a, some d => afterWrite st n i (i.mem.writeRaw .dev a d)
+    | some i, some a, some d => afterWrite st n i (i.mem.writeRaw st.profile a d)
     | _, _, _ => (st, "bad-op")
   | ["rd", n, m, r] =>
     match findInst st n with
@@ -340,7 +363,7 @@ def handle (st : St) : List String → St × String
   | ["ar", n, m, r] =>
     match findInst st n with
     | some i => match findReg i m r with
-      | some r => (st, showR rightName (i.mem.accessRight .dev r.unitReg))
+      | some r => (st, showR rightName (i.mem.accessRight st.profile r.unitReg))
       | none => (st, "bad-op")
     | none => (st, "bad-op")
   | ["sar", n, m, r, a] =>
@@ -348,8 +371,8 @@ def handle (st : St) : List String → St × String
     | some i, some a => match findReg i m r with
       | some r =>
         match i.mem.setAccessRight r.unitReg a with
-        | .ok m' => (setInst st n { i with mem := m' }, s!"ok prot={protDigest .dev m'}")
-        | _ => (st, s!"panic prot={protDigest .dev i.mem}")
+        | .ok m' => (setInst st n { i with mem := m' }, s!"ok prot={protDigest st.profile m'}")
+        | _ => (st, s!"panic prot={protDigest st.profile i.mem}")
       | none => (st, "bad-op")
     | _, _ => (st, "bad-op")
   | ["obs", n, m, r] =>
@@ -362,7 +385,7 @@ def handle (st : St) : List String → St × String
     | none => (st, "bad-op")
   | ["pg", n, a] =>
     match findInst st n, a.toNat? with
-    | some i, some a => (st, showR rightName (i.mem.protection.accessRight .dev a))
+    | some i, some a => (st, showR rightName (i.mem.protection.accessRight st.profile a))
     | _, _ => (st, "bad-op")
   | ["parse", m, r, d] =>
     match findRegSt st m r, hexToBytes d with
@@ -418,7 +441,7 @@ def handle (st : St) : List String → St × String
     (st, match s.toNat?, e.toNat? with
       | some s, some e => res3 (st.prot.verifyAddressWithRange s e)
       | _, _ => "bad-op")
-  | ["pdump"] => (st, "ok " ++ bytesToHex (protCells .dev st.prot st.prot.memorySize))
+  | ["pdump"] => (st, "ok " ++ bytesToHex (protCells st.profile st.prot st.prot.memorySize))
   | _ => (st, "bad-op")
 
 partial def loop (hin hout : IO.FS.Stream) (st : St) : IO Unit := do
